@@ -15,11 +15,23 @@ def scenario_script(sc, wd, idx, fmt):
         lines.append("level %d" % sc.get("level", 3))
         lines.append("kalign %s %d %d %g %g %g arr" % (arr, sc["threads"], sc["type"], sc["gpo"], sc["gpe"], sc["tgpe"]))
         return lines
-    with open(fa, "w") as f:
-        f.write(kv.fasta(list(zip(sc["names"], sc["seqs"])), width=sc.get("width", 60)))
+    recs = list(zip(sc["names"], sc["seqs"]))
+    files = [fa]
+    if sc.get("split") and len(recs) >= 3:
+        # the records arrive in two input files (kalign a.fa b.fa): input order = file order
+        cut = sc["split"] if 0 < sc["split"] < len(recs) else len(recs) // 2
+        fb = os.path.join(wd, "in_%d_b.fa" % idx)
+        with open(fa, "w") as f:
+            f.write(kv.fasta(recs[:cut]))
+        with open(fb, "w") as f:
+            f.write(kv.fasta(recs[cut:]))
+        files = [fa, fb]
+    else:
+        with open(fa, "w") as f:
+            f.write(kv.fasta(recs, width=sc.get("width", 60)))
     out = os.path.join(wd, "out_%d.%s" % (idx, fmt))
     lines += ["level %d" % sc.get("level", 3),
-              "read 0 %s" % fa,
+              "read 0 %s" % " ".join(files),
               "dump 0 in full",
               "run 0 %d %d %g %g %g" % (sc["threads"], sc["type"], sc["gpo"], sc["gpe"], sc["tgpe"]),
               "dump 0 out full",
@@ -53,6 +65,8 @@ def make_scenarios(rng, tier):
         sc["id"] = "g%d" % i
         if i % 7 == 3:
             sc["api"] = "array"
+        elif i % 5 == 1:
+            sc["split"] = rng.randint(1, max(1, len(sc["seqs"]) - 1))
         if i % 11 == 5 and sc.get("api") != "array":
             # a zero-length record among the input (kalign drops it)
             k = rng.randrange(len(sc["seqs"]))
